@@ -18,9 +18,11 @@ Tie: coq/C14/Model.v is a hand-written state machine of autode.species.Species' 
           alone; earlier originals of copy()/new_species() must stay bit-identical   -> ctx.finding
        b. records (error class, present flags, freshness bits, labels, graph edges, multiplicity) and lets
           Coq compare the whole trace with the model (check_trace, vm_compute)       -> correspondence;
-  3. aliasing probes: copy / new_species / Conformer(species=...) of reached states are mutated through the
-     public interface and in place (arrays, energies list, atoms, graph) and the other object is diffed,
-     in both directions;
+  3. aliasing probes: copy / new_species / Conformer(species=...) of reached states - derived from the species
+     AND from a conformer of it - plus the conformers held by a species and by its copy are changed one
+     mutation at a time on a fresh pair (public interface incl. atoms=, rotate about a non-zero origin /
+     about an atom; in-place writes to coordinate, gradient, Hessian arrays, energies list, atoms, graph) and
+     every other object of the family is diffed, in both directions;
   4. the same numeric oracle on Conformer objects (their setters are overridden, the model does not cover
      them).
 """
@@ -734,45 +736,68 @@ def run_sequence(n, ops, adaptive_rng=None, length=0):
 
 
 # ============================================================================ aliasing probes
-def mutate_everything(x, is_conf):
-    """Change an object through the public interface and in place; errors are irrelevant here."""
+def mutations(x):
+    """Named ways of changing object x: through the public interface and in place.  Each one is applied to a
+    FRESH (source, derived) pair, so an earlier mutation can never break an alias before a later one probes it."""
     from autode.values import PotentialEnergy
+    from autode.atoms import Atom
+    from autode.conformers.conformer import Conformer
+    is_conf = isinstance(x, Conformer)
+    n = x.n_atoms
+
+    def set_atoms():
+        x.atoms = type(x.atoms)([Atom(a.label, *(np.array(a.coord) * 1.13 + 0.2)) for a in x.atoms])
+
+    def coords_inplace():
+        c = x.coordinates          # a Conformer returns its internal array, a Species a fresh one
+        c[0] = np.array(c[0]) + 0.37
+
+    def coords_inplace_all():
+        c = x.coordinates
+        c -= 0.21
+
     muts = [
-        lambda: x.translate([1.0, 2.0, 3.0]),
-        lambda: x.rotate([0.3, 1.0, 0.2], 0.9),
-        lambda: setattr(x, "coordinates", np.array(x.coordinates) * 1.17 + 0.3),
-        lambda: setattr(x, "energy", -123.456),
-        lambda: setattr(x, "gradient", np.ones((x.n_atoms, 3))),
-        lambda: setattr(x, "hessian", np.eye(3 * x.n_atoms) * 2.0),
-        lambda: x.gradient.__setitem__((0, 0), 9.0),
-        lambda: x.hessian.__setitem__((0, 0), 9.0),
-        lambda: x.energies.append(PotentialEnergy(-7.0)),
-        lambda: x.energies.clear(),
-        lambda: setattr(x, "mult", 3),
-        lambda: setattr(x, "charge", 2),
-        lambda: [a.translate(vec=np.array([0.5, 0.5, 0.5])) for a in x.atoms],
-        lambda: x.atoms[0].coord.__iadd__(0.25),
-        lambda: setattr(x.atoms[0], "label", "B"),
-        lambda: x.graph.add_edge(1, 2, pi=False, active=False),
-        lambda: x.graph.remove_edge(0, 1),
+        ("coordinates[0]+=", coords_inplace),
+        ("coordinates-=", coords_inplace_all),
+        ("atoms=", set_atoms),
+        ("rotate-about-origin", lambda: x.rotate([0.3, 1.0, 0.2], 0.9, origin=[0.7, -0.4, 0.3])),
+        ("rotate-about-atom", lambda: x.rotate([1.0, 0.1, 0.2], 1.3, origin=x.coordinates[1])),
+        ("translate", lambda: x.translate([1.0, 2.0, 3.0])),
+        ("rotate", lambda: x.rotate([0.3, 1.0, 0.2], 0.9)),
+        ("centre", lambda: x.centre()),
+        ("coordinates", lambda: setattr(x, "coordinates", np.array(x.coordinates) * 1.17 + 0.3)),
+        ("energy", lambda: setattr(x, "energy", -123.456)),
+        ("gradient", lambda: setattr(x, "gradient", np.ones((n, 3)))),
+        ("hessian", lambda: setattr(x, "hessian", np.eye(3 * n) * 2.0)),
+        ("gradient[0,0]", lambda: x.gradient.__setitem__((0, 0), 9.0)),
+        ("hessian[0,0]", lambda: x.hessian.__setitem__((0, 0), 9.0)),
+        ("energies.append", lambda: x.energies.append(PotentialEnergy(-7.0))),
+        ("energies.clear", lambda: x.energies.clear()),
+        ("mult", lambda: setattr(x, "mult", 3)),
+        ("charge", lambda: setattr(x, "charge", 2)),
+        ("atom.translate", lambda: [a.translate(vec=np.array([0.5, 0.5, 0.5])) for a in x.atoms]),
+        ("atom.coord+=", lambda: x.atoms[0].coord.__iadd__(0.25)),
+        ("atom.label", lambda: setattr(x.atoms[0], "label", "B")),
+        ("graph.add_edge", lambda: x.graph.add_edge(1, 2, pi=False, active=False)),
+        ("graph.remove_edge", lambda: x.graph.remove_edge(0, 1)),
     ]
     if not is_conf:
-        n = x.n_atoms
-        muts.insert(3, lambda: x.reorder_atoms({i: (i + 1) % n for i in range(n)}))
-        muts.append(lambda: x.atoms.pop())
-    names = ["translate", "rotate", "coordinates", "energy", "gradient", "hessian", "gradient[0,0]", "hessian[0,0]",
-             "energies.append", "energies.clear", "mult", "charge", "atom.translate", "atom.coord+=", "atom.label",
-             "graph.add_edge", "graph.remove_edge"]
-    if not is_conf:
-        names.insert(3, "reorder_atoms")
-        names.append("atoms.pop")
-    return list(zip(names, muts))
+        muts.append(("reorder_atoms", lambda: x.reorder_atoms({i: (i + 1) % n for i in range(n)})))
+        muts.append(("atoms.pop", lambda: x.atoms.pop()))
+    return muts
+
+
+N_MUT = 25
 
 
 def aliasing_probe(ctx, run, tag):
-    """derive copy / new_species / conformer from run.s, mutate one side, diff the other. -> findings"""
+    """Objects derived from a reached state - copy / new_species / Conformer(species=...) of the SPECIES, the same
+    three of a CONFORMER of it, and the conformers held by a species and by its copy - are changed one mutation at
+    a time (fresh pair each time) and every other object of the family is diffed (coordinates, labels, energies,
+    gradient, Hessian, graph, mult, charge), in both directions.  -> findings"""
     from autode.conformers.conformer import Conformer
     out = []
+    e0, g0, h0 = pot(run.coords(), run.ident)
 
     def snap(o):
         return {
@@ -783,35 +808,79 @@ def aliasing_probe(ctx, run, tag):
             "edges": sorted(tuple(sorted(e)) for e in o.graph.edges) if o.graph is not None else None,
             "mult": o.mult, "charge": o.charge,
         }
-    derive = {"copy": lambda s: s.copy(), "new_species": lambda s: s.new_species(name="d"),
-              "conformer": lambda s: Conformer(species=s, name="c")}
-    for how, fn in derive.items():
+
+    def loaded_conformer(sp, name):
+        c = Conformer(species=sp, name=name)
+        c.energy, c.gradient, c.hessian = e0, g0.copy(), h0.copy()
+        return c
+
+    def family(src, how):
+        """-> dict name -> object; 'original' is the source, 'derived' what was made from it"""
+        base = run.s.copy()
+        if src == "species":
+            o = base
+        elif src == "conformer":
+            o = loaded_conformer(base, "src")
+        else:                      # a species holding two conformers
+            base.conformers = [loaded_conformer(base, "m0"), loaded_conformer(base, "m1")]
+            if how == "sibling":
+                return {"original": base.conformers[0], "derived": base.conformers[1], "holder": base}
+            cp = base.copy()
+            return {"original": base.conformers[0], "derived": cp.conformers[0], "holder": base, "holder-copy": cp}
+        d = {"copy": lambda: o.copy(), "new_species": lambda: o.new_species(name="d"),
+             "conformer": lambda: Conformer(species=o, name="c")}[how]()
+        if how == "conformer" and o.energies and src == "species":
+            d.energy = float(o.energies[-1])
+        return {"original": o, "derived": d}
+
+    plans = [("species", h) for h in ("copy", "new_species", "conformer")] + \
+            [("conformer", h) for h in ("copy", "new_species", "conformer")] + \
+            [("members", "sibling"), ("members", "copy")]
+    for src, how in plans:
+        label = how if src == "species" else f"{src}:{how}"
         for direction in ("derived", "original"):
-            base = run.s.copy()          # work on a private copy of the reached state
-            d = fn(base)
-            _ = d.graph, base.graph      # lazily built graphs exist before the snapshot
-            if how == "conformer" and base.energies:
-                d.energy = float(base.energies[-1])
-            mut, other = (d, base) if direction == "derived" else (base, d)
-            for name, m in mutate_everything(mut, is_conf=(mut is d and how == "conformer")):
-                before = snap(other)
+            for mi in range(N_MUT):
+                try:
+                    fam = family(src, how)
+                except Exception as ex:   # noqa
+                    ctx.hist("aliasing", f"derive-failed:{label}:{type(ex).__name__}")
+                    break
+                for o in fam.values():
+                    _ = o.graph            # lazily built graphs exist before the snapshot
+                mut = fam[direction]
+                ms = mutations(mut)
+                if mi >= len(ms):
+                    break
+                name, m = ms[mi]
+                others = {k: o for k, o in fam.items() if o is not mut}
+                before = {k: snap(o) for k, o in others.items()}
                 try:
                     m()
                 except Exception:   # noqa
                     pass
-                try:
-                    after = snap(other)
-                except Exception as ex:   # noqa
-                    out.append((f"aliasing|{how}|{direction}.{name}->broken", f"mutating the {direction} ({name}) broke the "
-                                f"other object: {type(ex).__name__}: {ex}", {"how": how, "dir": direction, "mutation": name}))
-                    break
-                diff = Run.snap_diff(before, after)
-                ctx.count("aliasing", (tag, how, direction, name), nontrivial=True)
-                if diff:
-                    out.append((f"aliasing|{how}|{direction}.{name}->{'+'.join(diff)}",
-                                f"{how}: changing the {direction} via {name} changed {diff} of the "
-                                f"{'original' if direction == 'derived' else 'derived object'}",
-                                {"how": how, "dir": direction, "mutation": name, "fields": diff}))
+                ctx.count("aliasing", (tag, label, direction, name), nontrivial=True)
+                for k, o in others.items():
+                    try:
+                        diff = Run.snap_diff(before[k], snap(o))
+                    except Exception as ex:   # noqa
+                        diff = [f"broken-{type(ex).__name__}"]
+                    if k.startswith("holder") and src == "members":
+                        # a species is not changed by what happens to a conformer it holds
+                        pass
+                    if diff:
+                        kept = [f for f in ("energies", "grad", "hess") if before[k][f] is not None
+                                and len(before[k][f]) > 0 and f not in diff]
+                        key = f"aliasing|{label}|{direction}.{name}->{'+'.join(diff)}"
+                        if label == "conformer" and direction == "original" and diff == ["labels"] \
+                                and name in ("atom.label", "atoms.pop"):
+                            # one root cause (Conformer keeps a reference to the species' Atoms list), one key
+                            key = "aliasing|conformer|original.atom.label->labels"
+                        out.append((key,
+                                    f"{label}: changing the {direction} object via {name} changed {diff} of the "
+                                    f"{'original' if k == 'original' else k + ' object'}"
+                                    + (f", which still reports its {kept}" if "coords" in diff and kept else ""),
+                                    {"source": src, "how": how, "dir": direction, "mutation": name, "fields": diff,
+                                     "changed_object": k}))
     return out
 
 
